@@ -558,16 +558,15 @@ def r12(ctx):
             if i == "term" or r["k"] != "agg" or r.get("adt") != "turmoil_fs::FsContext" or list(r.get("fields", [])) != ["fs", "now"]:
                 continue
             fa, na = Slicer(ctx.w).atoms(b, r["ops"][0]), Slicer(ctx.w).atoms(b, r["ops"][1])
-            src_f = "worker" if "field:turmoil_fs::WorkerContext::fs" in fa else "entered" if "const:CURRENT_FS_ARC" in fa else None
-            src_n = "worker" if "field:turmoil_fs::WorkerContext::time" in na else "entered" if "const:CURRENT_NOW" in na else None
-            if src_f is None and src_n is None:
-                continue
+            # by role, not by the worker struct's name: either both parts come from the thread-locals that `enter` installs, or neither does
+            src_f = "entered" if "const:CURRENT_FS_ARC" in fa else "worker"
+            src_n = "entered" if "const:CURRENT_NOW" in na else "worker"
             n += 1
             ok = src_f == src_n
             ctx.inst(R, f"fs-context:{b.id}#{n}", ok, st["s"], f"filesystem and clock both come from the {src_f} context" if ok else
                      f"`{b.id}` builds an FsContext from the {src_f} filesystem and the {src_n} clock: operations made through a worker thread's handle are stamped with the "
                      "thread-local time of a thread that never entered a step (zero) - file times disagree with since_epoch() and go backwards")
-    ctx.floor(R, 4)
+    ctx.floor(R, 2)
 
 
 def run(ctx):
